@@ -26,6 +26,13 @@ Ordered(ss) == \A i \in 1..(Len(ss) - 1) :
 \* (wdc records hold at most 65536 bytes; the run crosses one or two 64 KiB boundaries)
 LongLayouts == {<<[st |-> St(0, l, 1), len |-> n]>> : l \in {0, 4096}, n \in {65536, 65537}} \cup {<<[st |-> St(0, 4096, 1), len |-> 131074]>>}
 Ok(ss) == Ordered(ss) /\ ClusterOk(ss)
+\* the order in which a program assembles its segments is not the address order: three short segments in three different
+\* 64 KiB pages, written in each of the six orders (ord[k] = index of the segment assembled k-th)
+Small == [st : Starts, len : {1, 17}]
+OrdLayouts == {<<t[1], t[2], t[3]>> : t \in Small \X Small \X Small}
+OrdOk(ss) == Ok(ss) /\ ss[1].st.h < ss[2].st.h /\ ss[2].st.h < ss[3].st.h
+Perm3 == {<<1, 2, 3>>, <<1, 3, 2>>, <<2, 1, 3>>, <<2, 3, 1>>, <<3, 1, 2>>, <<3, 2, 1>>}
+OrdCases == {[segs |-> ss, ord |-> p] : ss \in {x \in OrdLayouts : OrdOk(x)}, p \in Perm3}
 \* nested quantifiers, not [1..n -> Seg]: TLC would build that set first (135^3 elements)
 Init == \/ \E a \in Seg : c = <<a>>
         \/ MaxSegs >= 2 /\ \E a \in Seg : \E b \in Seg : Ok(<<a, b>>) /\ c = <<a, b>>
@@ -33,4 +40,5 @@ Init == \/ \E a \in Seg : c = <<a>>
         \/ c \in LongLayouts
 Next == FALSE /\ UNCHANGED c
 Emit == PrintT("CASE " \o ToJson(c))
+EmitOrd == (c = <<[st |-> St(0, 0, 1), len |-> 1]>>) => PrintT("ORD " \o ToJson(OrdCases))
 =============================================================================
